@@ -211,6 +211,58 @@ NestCases(u) ==
 ArityCases(u) ==
   {One(Call(f, [i \in 1..n |-> Lit(I(1))]), <<>>, <<>>) : f \in ArrayFuncs \ {"@", "$"}, n \in 1..4}
 
+\* ---------------------------------------------------------------- integers of the whole 64-bit type
+\* "embed": every start / stop / increment of the Bits-bit machine of ExprArrayWidth.tla (3 bits; 4 when
+\* Thorough) multiplied by 2^(64-Bits) - the 64-bit loop then runs through exactly the wrap-arounds the
+\* small machine runs through; "near": values next to -2^63, 0 and 2^63-1 with small and huge increments;
+\* positions / lengths of @select and @slice that no list reaches; @for carrying values through sumi.
+\* Only cases the specification decides are generated (a range of 2^63 elements is not evaluated).
+G60 == W(FALSE, <<49, 49, 53, 50, 57, 50, 49, 53, 48, 52, 54, 48, 54, 56, 52, 54, 57, 55, 54>>)       \* 2^60
+G61 == W(FALSE, <<50, 51, 48, 53, 56, 52, 51, 48, 48, 57, 50, 49, 51, 54, 57, 51, 57, 53, 50>>)       \* 2^61
+G62 == W(FALSE, <<52, 54, 49, 49, 54, 56, 54, 48, 49, 56, 52, 50, 55, 51, 56, 55, 57, 48, 52>>)       \* 2^62
+G32 == W(FALSE, <<52, 50, 57, 52, 57, 54, 55, 50, 57, 54>>)       \* 2^32
+G31 == W(FALSE, <<50, 49, 52, 55, 52, 56, 51, 54, 52, 56>>)       \* 2^31
+ASSUME G60 = WPow2(60) /\ G61 = WPow2(61) /\ G62 = WPow2(62) /\ G32 = WPow2(32) /\ G31 = WPow2(31)
+EmbBits == IF Thorough THEN 4 ELSE 3
+EmbVals == IF Thorough THEN (0 - 8)..7 ELSE (0 - 4)..3
+EmbText(v) == WText(WMulInt(IF Thorough THEN G60 ELSE G61, v))
+WT(w) == WText(w)
+NearPts == {WMin64, WAdd(WMin64, WOne), WAdd(WMin64, WOfInt(2)), WOfInt(0 - 2), WOfInt(0 - 1), WZero, WOne, WOfInt(2),
+            WSub(WMax64, WOfInt(2)), WSub(WMax64, WOne), WMax64}
+NearIncr == {WOne, WOfInt(2), WOfInt(0 - 1), WOfInt(0 - 2), WMax64, WMin64, WNeg(WMax64), G62, WNeg(G62), WAdd(G62, WOne),
+             WSub(WMax64, WOne), WAdd(G62, G61), WNeg(WAdd(G62, G61)), WAdd(G61, WOfInt(7))}
+WidePos == {WMax64, WSub(WMax64, WOne), G62, G32, WAdd(G32, WOne), G31, WSub(G31, WOne), WOfInt(1000000000)}
+WideIdx == WidePos \cup {WNeg(w) : w \in WidePos} \cup {WMin64, WAdd(WMin64, WOne)}
+RangeVia(ta, tb, tc, lits) ==
+  IF lits THEN One(Call("@range", <<Lit(ta), Lit(tb), Lit(tc)>>), <<>>, <<>>)
+  ELSE One(Call("@range", <<A0, A1, Arg(2)>>), <<ta, tb, tc>>, <<>>)
+WideCases(u) ==
+  {h \in {RangeVia(EmbText(a), EmbText(b), EmbText(c), lits) : a \in EmbVals, b \in EmbVals, c \in EmbVals, lits \in BOOLEAN} : Decided(h)}
+  \cup {h \in {RangeVia(WT(a), WT(b), WT(c), FALSE) : a \in NearPts, b \in NearPts, c \in NearIncr} : Decided(h)}
+  \cup {h \in {One(Call("@range", <<Lit(WT(a)), Key(Kn), Lit(WT(c))>>), <<>>, <<<<Kn, WT(b)>>>>) :
+                  a \in {WMin64, WOfInt(0 - 2), WSub(WMax64, WOfInt(2))}, b \in NearPts, c \in NearIncr} : Decided(h)}
+  \cup {h \in {One(Call("@range", <<A0, A1>>), <<WT(a), WT(b)>>, <<>>) : a \in NearPts, b \in NearPts} : Decided(h)}
+  \cup {h \in {One(Call("@len", <<Call("@range", <<A0, A1, Arg(2)>>)>>), <<WT(a), WT(b), WT(c)>>, <<>>) :
+                  a \in {WMin64, WZero}, b \in {WZero, WMax64}, c \in NearIncr} : Decided(h)}
+  \* an integer text that is no value of the type, +/leading zeros
+  \cup {One(Call("@range", <<A0, A1, Arg(2)>>), <<ta, tb, tc>>, <<>>) :
+          ta \in {I(0), WT(WAdd(WMax64, WOne)), <<43>> \o WT(WSub(WMax64, WOne)), <<45, 48>>}, tb \in {WT(WMax64), <<48, 48>> \o WT(WMax64)}, tc \in {WT(G62), Sx}}
+  \* positions and lengths
+  \cup UNION {{One(Call("@select", <<s.a, Lit(WT(w))>>), s.m, s.ks) : s \in Supply(l), w \in WideIdx} : l \in {Distinct(1), Distinct(3), <<E, Sx, E, Sy>>}}
+  \cup UNION {{One(Call("@slice", <<s.a, Lit(WT(w))>>), s.m, s.ks) : s \in Supply(l), w \in WideIdx} : l \in {Distinct(1), Distinct(3), <<E, Sx, E, Sy>>}}
+  \cup UNION {{One(Call("@slice", <<s.a, Lit(st), Lit(WT(w))>>), s.m, s.ks) :
+                  s \in SupplyDyn(l), st \in {I(0), I(1), I(2), I(0 - 1), I(0 - 2), I(0 - 5), I(7), WT(WMin64), WT(WMax64), WT(WNeg(G32))}, w \in WidePos} :
+                l \in {Distinct(1), Distinct(4), <<E, Sx, E, Sy>>}}
+  \cup UNION {{One(Call("@slice", <<s.a, Lit(WT(w)), Lit(I(c))>>), s.m, s.ks) : s \in SupplyDyn(l), w \in WideIdx, c \in {0, 1, 5}} : l \in {Distinct(3)}}
+  \cup {One(Call("@len", <<Call("@slice", <<A0, Lit(I(i)), Lit(WT(w))>>)>>), <<Render(Distinct(4))>>, <<>>) : i \in (0 - 5)..5, w \in {WMax64, G32}}
+  \* @for carrying 64-bit values
+  \cup {h \in {One(Call("@for", <<st, Call("lt", <<A1, Lit(I(n))>>), Call(f, <<A0, Lit(WT(c))>>)>>), <<WT(a)>>, <<<<Kn, WT(a)>>>>) :
+                  st \in {A0, Key(Kn)}, a \in {WSub(WMax64, WOfInt(3)), WMin64, G62, WNeg(G62), WAdd(WMin64, WOfInt(2)), WOfInt(5)},
+                  f \in {"sumi", "subi"}, c \in {WOne, WOfInt(3), G61, G62, WNeg(G61)}, n \in 1..4} : Decided(h)}
+  \cup {h \in {One(Call("@reduce", <<A0, Call(f, <<A0, A1>>)>>), <<Render(l)>>, <<>>) :
+                  f \in {"sumi", "subi"}, l \in {<<WT(G62), WT(G61), WT(G61)>>, <<WT(WMin64), WT(G62), WT(G62), I(7)>>, <<WT(WMax64), I(0 - 1), WT(WNeg(G62))>>,
+                                                  <<I(1), WT(WMax64)>>, <<WT(WMin64), I(1)>>}} : Decided(h)}
+
 \* ---------------------------------------------------------------- histories (ExprPool made concrete)
 \* every expression reads the key k (and n) of ITS OWN match inside a sub-expression
 HX == [h1 |-> Call("@map", <<A0, Cat(<<A0, Key(Kk)>>)>>),
@@ -257,14 +309,14 @@ GCtx(g) == [m |-> <<Render([i \in 1..6 |-> <<97 + g, 43, 48 + i>>])>>, ks |-> <<
 ConcCases(u) == {<<Step(HX[h], GCtx(g).m, GCtx(g).ks)>> : h \in HNames, g \in 1..8}
 
 Groups == {"split", "join", "len", "select", "slice", "map", "filter", "reduce", "in", "range", "for", "concat",
-           "nest", "arity", "hist2", "conc"} \cup (IF Thorough THEN {"hist3"} ELSE {})
+           "nest", "arity", "hist2", "conc", "wide"} \cup (IF Thorough THEN {"hist3"} ELSE {})
 
 Cases(g) ==
   CASE g = "split" -> SplitCases(0) [] g = "join" -> JoinCases(0) [] g = "len" -> LenCases(0)
     [] g = "select" -> SelectCases(0) [] g = "slice" -> SliceCases(0)
     [] g = "map" -> MapCases(0) [] g = "filter" -> FilterCases(0) [] g = "reduce" -> ReduceCases(0)
     [] g = "in" -> InCases(0) [] g = "range" -> RangeCases(0) [] g = "for" -> ForCases(0) [] g = "concat" -> ConcatCases(0)
-    [] g = "nest" -> NestCases(0) [] g = "arity" -> ArityCases(0)
+    [] g = "nest" -> NestCases(0) [] g = "arity" -> ArityCases(0) [] g = "wide" -> WideCases(0)
     [] g = "hist2" -> Hist2(0) [] g = "hist3" -> Hist3(0) [] g = "conc" -> ConcCases(0)
 
 Init == vec \in {[hdr |-> TRUE, g |-> g, steps |-> <<>>] : g \in Groups}
